@@ -2527,5 +2527,5 @@ RULES = {
     "C02": [rule_ndjson_lookahead],
     "C04": [rule_cxx_header, rule_output_order, rule_ndjson_header, rule_no_static_locals_from_arguments],
     "C03": [rule_output_order, rule_reader_overwrites, rule_integer_dispatch, rule_shift_in_destination_type, rule_zigzag_width, rule_varint_constants],
-    "C17": [rule_reader_overwrites, rule_blocks, rule_trivial_trait_set, rule_output_order, rule_pointer_offset_units],
+    "C17": [rule_reader_overwrites, rule_blocks, rule_trivial_trait_set, rule_output_order, rule_pointer_offset_units, rule_coded_stream_bounds],
 }
